@@ -77,6 +77,7 @@ class C07(c01.C01):
     judge_write_open = False      # "the written image can always be opened" is C01's; C07 judges link semantics
 
     def before_edit(self, ctx, op):
+        super().before_edit(ctx, op)
         m = ctx.model
         if op['op'] in ('rm_link', 'rm_file'):
             n = m.get(op['ns'], op['path'])
